@@ -1,0 +1,144 @@
+//go:build verif
+
+// Contracts for package handshake, checked by /verif (govc). Comment-only.
+package handshake
+
+// ---------------------------------------------------------------------------------------------
+// C14: framing, pooled state and the four-message exchange.
+//
+// Assumed leaves: the stream, the generated (vtproto) codecs, io.ReadFull.
+// Ghost wire log: number of complete reads / writes on the stream and successful credential
+// checks, with a global sequence number for their order.
+//@ ghost hsSeq Int stable
+//@ ghost hsReads Int stable
+//@ ghost hsWrites Int stable
+//@ ghost hsLastReadAt Int stable
+//@ ghost hsLastWriteAt Int stable
+//@ ghost hsChecked Bool stable
+//@ ghost hsCheckedAt Int stable
+//@ func io.ReadFull
+//@   modifies object arg1
+//@   ensures result1 == nil ==> result0 == len(arg1)
+//@   sets hsReads = hsReads + ite(result1 == nil, 1, 0)
+//@   sets hsLastReadAt = ite(result1 == nil, hsSeq, hsLastReadAt)
+//@   sets hsSeq = hsSeq + 1
+//@ func iface io.ReadWriteCloser.Write
+//@   modifies nothing
+//@   sets hsWrites = hsWrites + ite(result1 == nil, 1, 0)
+//@   sets hsLastWriteAt = ite(result1 == nil, hsSeq, hsLastWriteAt)
+//@   sets hsSeq = hsSeq + 1
+//@ func iface handshake.CredentialChecker.CheckCredential
+//@   modifies nothing
+//@   sets hsChecked = hsChecked || result1 == nil
+//@   sets hsCheckedAt = ite(result1 == nil, hsSeq, hsCheckedAt)
+//@   sets hsSeq = hsSeq + 1
+//@ func iface handshake.CredentialChecker.MakeCredentials
+//@   modifies nothing
+//@   ensures result != nil
+//@ func iface io.ReadWriteCloser.Close
+//@   modifies nothing
+//@ func (*github.com/anyproto/any-sync/net/secureservice/handshake/handshakeproto.Credentials).UnmarshalVT
+//@   modifies object arg0 kinds uint8
+//@ func (*github.com/anyproto/any-sync/net/secureservice/handshake/handshakeproto.Ack).UnmarshalVT
+//@   modifies object arg0 kinds uint8
+//@ func (*github.com/anyproto/any-sync/net/secureservice/handshake/handshakeproto.Proto).UnmarshalVT
+//@   modifies object arg0 kinds uint8 uint32
+//@ func (*github.com/anyproto/any-sync/net/secureservice/handshake/handshakeproto.Credentials).SizeVT
+//@   pure
+//@   ensures result >= 0 && result <= 2147483647
+//@ func (*github.com/anyproto/any-sync/net/secureservice/handshake/handshakeproto.Ack).SizeVT
+//@   pure
+//@   ensures result >= 0 && result <= 2147483647
+//@ func (*github.com/anyproto/any-sync/net/secureservice/handshake/handshakeproto.Credentials).MarshalToSizedBufferVT
+//@   modifies kinds uint8
+//@   ensures result1 == nil ==> 0 <= result0 && result0 <= len(arg1)
+//@ func (*github.com/anyproto/any-sync/net/secureservice/handshake/handshakeproto.Ack).MarshalToSizedBufferVT
+//@   modifies kinds uint8
+//@   ensures result1 == nil ==> 0 <= result0 && result0 <= len(arg1)
+//@ package encoding/binary
+//@ func (littleEndian).Uint32
+//@   modifies nothing
+//@   requires [needs_4_bytes] len(arg1) >= 4
+//@   ensures 0 <= result && result <= 4294967295
+//@ func (littleEndian).PutUint32
+//@   modifies kinds uint8
+//@   requires [needs_4_bytes] len(arg1) >= 4
+//@ package github.com/anyproto/any-sync/net/secureservice/handshake
+
+//@ def hwf(h) = h != nil && h.remoteCred != nil && h.remoteAck != nil && h.localAck != nil && h.remoteProto != nil
+// the pooled messages are separately allocated objects (see handshakePool.New)
+//@ def hsep(h) = rootof(h.remoteCred) != rootof(h) && rootof(h.remoteAck) != rootof(h) && rootof(h.localAck) != rootof(h) && rootof(h.remoteProto) != rootof(h) && \
+//@      rootof(h.remoteCred) != rootof(h.remoteAck) && rootof(h.remoteCred) != rootof(h.remoteProto) && rootof(h.remoteAck) != rootof(h.remoteProto) && rootof(h.localAck) != rootof(h.remoteAck) && \
+//@      rootof(h.buf) != rootof(h) && rootof(h.buf) != rootof(h.remoteCred) && rootof(h.buf) != rootof(h.remoteAck) && rootof(h.buf) != rootof(h.localAck) && rootof(h.buf) != rootof(h.remoteProto)
+
+// release: nothing of the finished connection survives in the pooled object.
+//@ func (*handshake).release
+//@   requires hwf(h)
+//@   ensures [resets_conn]    h.conn == nil && len(h.buf) == 0
+//@   ensures [resets_cred]    h.remoteCred.Type == 0 && len(h.remoteCred.Payload) == 0
+//@   ensures [resets_version] h.remoteCred.Version == 0 && h.remoteCred.ClientVersion == ""
+//@   ensures [resets_acks]    h.localAck.Error == 0 && h.remoteAck.Error == 0
+//@   ensures [resets_proto]   h.remoteProto.Proto == 0 && len(h.remoteProto.Encodings) == 0
+
+// readMsg: only whitelisted frame types, bounded size, bounded buffer growth.
+//@ func (*handshake).readMsg
+//@   requires hwf(h) && hsep(h) && h.conn != nil
+//@   requires rootof(allowedTypes) != rootof(h.buf)
+//@   requires forall k int :: 0 <= k && k < len(allowedTypes) ==> allowedTypes[k] == 1 || allowedTypes[k] == 2 || allowedTypes[k] == 3
+//@   ensures [some_kind]        err == nil ==> msg.cred != nil || msg.ack != nil || msg.proto != nil
+//@   ensures [type_whitelisted] err == nil ==> (msg.cred != nil || msg.ack != nil || msg.proto != nil) ==> (exists k int :: 0 <= k && k < len(allowedTypes) && (old(allowedTypes[k]) == 1 && msg.cred != nil || old(allowedTypes[k]) == 2 && msg.ack != nil || old(allowedTypes[k]) == 3 && msg.proto != nil))
+//@   ensures [at_most_one_kind] err == nil ==> !(msg.cred != nil && msg.ack != nil) && !(msg.cred != nil && msg.proto != nil) && !(msg.ack != nil && msg.proto != nil)
+//@   ensures [pooled_objects]   (msg.cred != nil ==> msg.cred == old(h.remoteCred)) && (msg.ack != nil ==> msg.ack == old(h.remoteAck)) && (msg.proto != nil ==> msg.proto == old(h.remoteProto))
+//@   ensures [keeps_pool]       h.remoteCred == old(h.remoteCred) && h.remoteAck == old(h.remoteAck) && h.localAck == old(h.localAck) && h.remoteProto == old(h.remoteProto) && h.conn == old(h.conn)
+//@   ensures [buffer_bounded]   len(h.buf) <= 204800 || len(h.buf) <= 5
+//@   ensures [keeps_sep]        hsep(h)
+//@   ensures [two_reads]        err == nil ==> hsReads == old(hsReads) + 2 && hsLastReadAt >= old(hsSeq) && hsLastReadAt < hsSeq
+//@   ensures [ghost_frame]      hsWrites == old(hsWrites) && hsLastWriteAt == old(hsLastWriteAt) && hsChecked == old(hsChecked) && hsCheckedAt == old(hsCheckedAt) && hsSeq >= old(hsSeq) && hsReads >= old(hsReads)
+
+// writers: one successful write per frame
+//@ func (*handshake).writeData
+//@   requires hwf(h) && hsep(h) && h.conn != nil && 0 <= size && size + 5 <= len(h.buf)
+//@   ensures [one_write]   err == nil ==> hsWrites == old(hsWrites) + 1 && hsLastWriteAt >= old(hsSeq) && hsLastWriteAt < hsSeq
+//@   ensures [ghost_frame] hsReads == old(hsReads) && hsLastReadAt == old(hsLastReadAt) && hsChecked == old(hsChecked) && hsCheckedAt == old(hsCheckedAt) && hsSeq >= old(hsSeq) && hsWrites >= old(hsWrites)
+//@   ensures [keeps_pool]  hsep(h) && h.remoteCred == old(h.remoteCred) && h.remoteAck == old(h.remoteAck) && h.localAck == old(h.localAck) && h.remoteProto == old(h.remoteProto) && h.conn == old(h.conn)
+//@ func (*handshake).writeCredentials
+//@   requires hwf(h) && hsep(h) && h.conn != nil && cred != nil
+//@   ensures [one_write]   err == nil ==> hsWrites == old(hsWrites) + 1 && hsLastWriteAt >= old(hsSeq) && hsLastWriteAt < hsSeq
+//@   ensures [ghost_frame] hsReads == old(hsReads) && hsLastReadAt == old(hsLastReadAt) && hsChecked == old(hsChecked) && hsCheckedAt == old(hsCheckedAt) && hsSeq >= old(hsSeq) && hsWrites >= old(hsWrites)
+//@   ensures [keeps_pool]  hsep(h) && h.remoteCred == old(h.remoteCred) && h.remoteAck == old(h.remoteAck) && h.localAck == old(h.localAck) && h.remoteProto == old(h.remoteProto) && h.conn == old(h.conn)
+//@ func (*handshake).writeAck
+//@   requires hwf(h) && hsep(h) && h.conn != nil
+//@   ensures [one_write]   err == nil ==> hsWrites == old(hsWrites) + 1 && hsLastWriteAt >= old(hsSeq) && hsLastWriteAt < hsSeq
+//@   ensures [ghost_frame] hsReads == old(hsReads) && hsLastReadAt == old(hsLastReadAt) && hsChecked == old(hsChecked) && hsCheckedAt == old(hsCheckedAt) && hsSeq >= old(hsSeq) && hsWrites >= old(hsWrites)
+//@   ensures [keeps_pool]  hsep(h) && h.remoteCred == old(h.remoteCred) && h.remoteAck == old(h.remoteAck) && h.localAck == old(h.localAck) && h.remoteProto == old(h.remoteProto) && h.conn == old(h.conn)
+//@ func (*handshake).tryWriteErrAndClose
+//@   requires hwf(h) && hsep(h) && h.conn != nil
+//@   ensures [ghost_frame] hsReads == old(hsReads) && hsLastReadAt == old(hsLastReadAt) && hsChecked == old(hsChecked) && hsCheckedAt == old(hsCheckedAt)
+//@   ensures [keeps_pool]  hsep(h) && h.remoteCred == old(h.remoteCred) && h.remoteAck == old(h.remoteAck) && h.localAck == old(h.localAck) && h.remoteProto == old(h.remoteProto) && h.conn == old(h.conn)
+
+// The four-message exchange. Success of the initiator means: our credentials were written, the
+// peer's credentials were read and passed CheckCredential, then our Ack(Null) was written, and an
+// Ack(Null) from the peer was read last. Success of the responder: the peer's credentials were read
+// and passed the check, ours were written, the peer's Ack(Null) was read, and our Ack(Null) was
+// written last. Either way the pooled object leaves clean.
+//@ func outgoingHandshake
+//@   requires hwf(h) && hsep(h) && conn != nil && cc != nil
+//@   requires !hsChecked
+//@   ensures [ok_checked_peer]  err == nil ==> hsChecked
+//@   ensures [ok_two_writes]    err == nil ==> hsWrites == old(hsWrites) + 2
+//@   ensures [ok_four_reads]    err == nil ==> hsReads == old(hsReads) + 4
+//@   ensures [ok_order]         err == nil ==> hsCheckedAt < hsLastWriteAt && hsLastWriteAt < hsLastReadAt
+//@   ensures [released]         h.conn == nil && h.remoteCred.Version == 0 && h.remoteCred.ClientVersion == "" && h.remoteCred.Type == 0 && len(h.remoteCred.Payload) == 0 && h.remoteAck.Error == 0 && h.localAck.Error == 0
+//@ func incomingHandshake
+//@   requires hwf(h) && hsep(h) && conn != nil && cc != nil
+//@   requires !hsChecked
+//@   ensures [ok_checked_peer]  err == nil ==> hsChecked
+//@   ensures [ok_two_writes]    err == nil ==> hsWrites == old(hsWrites) + 2
+//@   ensures [ok_four_reads]    err == nil ==> hsReads == old(hsReads) + 4
+//@   ensures [ok_order]         err == nil ==> hsCheckedAt < hsLastReadAt && hsLastReadAt < hsLastWriteAt
+//@   ensures [released]         h.conn == nil && h.remoteCred.Version == 0 && h.remoteCred.ClientVersion == "" && h.remoteCred.Type == 0 && len(h.remoteCred.Payload) == 0 && h.remoteAck.Error == 0 && h.localAck.Error == 0
+
+// The pool's constructor creates the separately allocated parts the contracts above rely on.
+//@ func init$1
+//@   ensures [parts_allocated] hwf(cast(result, "*handshake")) && hsep(cast(result, "*handshake"))
+//@   ensures [clean]           cast(result, "*handshake").conn == nil && cast(result, "*handshake").remoteCred.Version == 0 && len(cast(result, "*handshake").buf) == 0
